@@ -1,5 +1,6 @@
 import Logrange.Proofs.Mixer
 import Logrange.Proofs.MixTree
+import Logrange.Proofs.MixerErr
 import Logrange.Generated.C04
 /-!
 # C04 — Multi-partition reads are the complete, correctly attributed, time-ordered merge
@@ -33,7 +34,8 @@ abbrev Descending (l : List Ev) : Prop := l.Pairwise (fun x y => y.ts ≤ x.ts)
 theorem facts :
     Generated.C04.limitCheckOp = "==" ∧ Generated.C04.getEarliestOp = "<=" ∧
     Generated.C04.testFuncNegatesBackward = true ∧ Generated.C04.newCursorUsesGetEarliest = true ∧
-    1 ≤ Generated.C04.mergeLimit ∧ Generated.C04.newCursorSortsSources = true := by decide
+    1 ≤ Generated.C04.mergeLimit ∧ Generated.C04.newCursorSortsSources = true ∧
+    Generated.C04.applyStateResyncs = true := by decide
 
 /-! ## the pure merge -/
 
@@ -282,6 +284,135 @@ theorem cex_sticky_eof_hides_append :
     MixSt.choose, MixSt.out, MixSt.testFunc, getEarliest, Source.get, Source.next, Source.release, Leaf.get, Leaf.next,
     Leaf.release, Leaf.clamp, Leaf.append, Leaf.ev]
 
+/-! ## re-positioning a held cursor (`crsr.ApplyState`) -/
+
+/-- what `ApplyState` does to the iterator tree when the requested position differs, **as the code is now** (regenerated fact
+`applyStateResyncs`): the journal iterators are moved (`g`: `SetPos` on every source, behind the mixers' back), then — if the
+code does it unconditionally — the whole tree is switched backward and forward again -/
+def applyStatePos (g : σ → σ) (t : It σ) : It σ :=
+  if Generated.C04.applyStateResyncs then ((t.mapLeaves g).setBackward true).setBackward false else t.mapLeaves g
+
+/-- **a re-positioned merged cursor serves the merge from the new position.** A cursor in *any* reachable forward state (a
+selection pending, `eof` flags set, buffered heads of the old position) whose sources are moved to arbitrary new positions
+(`g s` well formed, forward) is, after `ApplyState`, a well-formed tree over the moved sources: its read is a permutation of
+what the moved sources deliver alone, keeps each source's order, is ascending when each is — nothing of the old position is
+served. Sources: a direction switch there and back does not change what a source will deliver (`hround`), nor does a `Release`
+in between (`hrel`); both hold for the in-memory iterator (`Leaf.reposition_laws`) — the journal iterators only set a flag. -/
+theorem repositioned_cursor_serves_new_position (t : It σ) (h : t.WF) (hd : t.dir = false) (g : σ → σ)
+    (hg : ∀ s ∈ t.leaves, wf (g s) ∧ dir (g s) = false)
+    (hrel : ∀ s : σ, wf s → view (Source.setBackward false (Source.release s)) = view (Source.setBackward false s))
+    (hround : ∀ s : σ, wf s → dir s = false → view (Source.setBackward false (Source.setBackward true s)) = view s)
+    (rel : Nat → Bool × Bool) (n : Nat) (hn : (applyStatePos g t).view.length < n) :
+    let t' := applyStatePos g t
+    let read := t'.drainRel rel n 0
+    t'.WF ∧ t'.dir = false ∧ t'.leaves.map view = t.leaves.map (fun s => view (g s)) ∧
+    read.Perm (t.leaves.flatMap (fun s => view (g s))) ∧
+    (∀ s ∈ t.leaves, (view (g s)).Sublist read) ∧
+    ((∀ s ∈ t.leaves, Ascending (view (g s))) → Ascending read) := by
+  intro t' read
+  have hf : Generated.C04.applyStateResyncs = true := facts.2.2.2.2.2.2
+  have et : t' = ((t.mapLeaves g).setBackward true).setBackward false := by
+    show applyStatePos g t = _
+    unfold applyStatePos; rw [hf]; rfl
+  have d0 := It.WF_DirOK t h
+  rw [hd] at d0
+  have d1 := It.mapLeaves_DirOK g false t d0 hg
+  obtain ⟨w2, dir2⟩ := It.setBackward_of_DirOK true false _ d1 (by decide)
+  obtain ⟨w3, dir3⟩ := It.setBackward_spec false _ w2
+  -- the streams of the sources, through the two switches
+  have v3 := It.setBackward_leaves_views false _ w2 (by rw [dir2]; decide)
+  have v2 := It.setBackward_leaves_map (fun s => view (Source.setBackward false s)) hrel true false _ d1 (by decide)
+  have hv : t'.leaves.map view = t.leaves.map (fun s => view (g s)) := by
+    rw [et, v3, v2, It.mapLeaves_leaves, List.map_map]
+    apply List.map_congr_left
+    intro s hs
+    exact hround (g s) (hg s hs).1 (hg s hs).2
+  have w' : t'.WF := et ▸ w3
+  have dd : t'.dir = false := et ▸ dir3
+  have R := read_any_state t' w' rel n hn
+  simp only [dd] at R
+  obtain ⟨r1, r2, r3, _⟩ := R
+  have fm : t'.leaves.flatMap view = t.leaves.flatMap (fun s => view (g s)) := by
+    rw [List.flatMap_def, List.flatMap_def, hv]
+  have tr : ∀ P : List Ev → Prop, (∀ s ∈ t'.leaves, P (view s)) ↔ (∀ s ∈ t.leaves, P (view (g s))) := by
+    intro P
+    have e1 : (∀ s ∈ t'.leaves, P (view s)) ↔ ∀ v ∈ t'.leaves.map view, P v := by simp [List.mem_map]
+    have e2 : (∀ s ∈ t.leaves, P (view (g s))) ↔ ∀ v ∈ t.leaves.map (fun s => view (g s)), P v := by simp [List.mem_map]
+    rw [e1, e2, hv]
+  refine ⟨w', dd, hv, fm ▸ r1, (tr (fun v => v.Sublist read)).mp r2, ?_⟩
+  intro hs
+  have := r3 ((tr (fun v => v.Pairwise (ord false))).mpr (by intro s h; simpa only [ord_false] using hs s h))
+  simpa only [ord_false] using this
+
+/-- the in-memory iterator meets the two source hypotheses of `repositioned_cursor_serves_new_position` -/
+theorem Leaf.reposition_laws (l : Leaf) (hb : l.bkwd = false) :
+    view (Source.setBackward false (Source.release l)) = view (Source.setBackward false l) ∧
+    view (Source.setBackward false (Source.setBackward true l)) = view l := by
+  refine ⟨rfl, ?_⟩
+  show (Leaf.setBackward false (Leaf.setBackward true l)).view = l.view
+  simp only [Leaf.setBackward, Leaf.view, Bool.false_eq_true, if_false, hb]
+  rfl
+
+/-- `Release` is not enough for a re-position: partition 1 = `[1, 3]`, partition 2 = `[2, 4]`; the cursor has read `1` and `2`,
+peeked `3` (selected, buffered) and is released; both iterators are moved back to their first record. Without the switch the
+read starts with the stale head `3` and `1` comes after it; with `ApplyState`'s switch there and back it is `1, 2, 3, 4`. -/
+theorem cex_release_does_not_forget :
+    let a : Leaf := ⟨1, [⟨1, 0⟩, ⟨3, 1⟩], 1, false⟩
+    let b : Leaf := ⟨2, [⟨2, 0⟩, ⟨4, 1⟩], 1, false⟩
+    let m : MixSt := { st := 1, le1 := ⟨3, 1, 1⟩, le2 := ⟨4, 1, 2⟩ }
+    let back : Leaf → Leaf := fun l => { l with idx := 0 }
+    (It.mix m (.leaf a) (.leaf b)).WF ∧
+    (((It.mix m (.leaf a) (.leaf b)).release.mapLeaves back).drain 6).head? = some ⟨3, 1, 1⟩ ∧
+    (applyStatePos back (It.mix m (.leaf a) (.leaf b))).drain 6 = [⟨1, 0, 1⟩, ⟨2, 0, 2⟩, ⟨3, 1, 1⟩, ⟨4, 1, 2⟩] := by
+  refine ⟨by simp [It.WF, It.view, It.dir, It.settled, LawfulSource.wf, LawfulSource.view, LawfulSource.dir,
+    LawfulSource.settled, Leaf.wf, Leaf.view, Leaf.settled, Leaf.ev, sel, pick], ?_, ?_⟩ <;>
+  simp [applyStatePos, Generated.C04.applyStateResyncs, It.drain, It.get, It.next, It.release, It.setBackward, It.mapLeaves,
+    MixSt.selectState, MixSt.fetch1, MixSt.fetch2, MixSt.choose, MixSt.out, MixSt.testFunc, getEarliest, Source.get,
+    Source.next, Source.release, Source.setBackward, Leaf.get, Leaf.next, Leaf.release, Leaf.setBackward, Leaf.clamp, Leaf.ev]
+
+/-! ## a source that fails is not a source that has ended -/
+
+/-- the error model is the proved model when nothing fails: on answers that are events or `io.EOF`, `selectStateE` is
+`selectState` and reports no error -/
+theorem error_model_extends {α : Type} (m : MixSt) (a b a' b' : α) (oa ob : Option Ev) :
+    m.selectStateE a b (a', Res.ofOption oa) (b', Res.ofOption ob) =
+      ((m.selectState a b (a', oa) (b', ob)).1, (m.selectState a b (a', oa) (b', ob)).2.1,
+       (m.selectState a b (a', oa) (b', ob)).2.2, false) :=
+  selectStateE_noerr m a b a' b' oa ob
+
+/-- **an erroring source is never treated as ended**: when a source that is asked answers an error that is not `io.EOF`,
+`selectState` returns the error, keeps `st = 0` and does not set that source's `eof` flag (first source: the second is not even
+asked; second source: the first one's flag is set only if it really answered `io.EOF`) -/
+theorem error_is_not_eof {α : Type} (m : MixSt) (a b : α) (ga gb : α × Res) (h0 : m.st = 0) :
+    (m.eof1 = false → ga.2 = .err →
+      (m.selectStateE a b ga gb).2.2.2 = true ∧ (m.selectStateE a b ga gb).1.st = 0 ∧
+      (m.selectStateE a b ga gb).1.eof1 = false ∧ (m.selectStateE a b ga gb).1.eof2 = m.eof2) ∧
+    ((m.eof1 = true ∨ ga.2 ≠ .err) → m.eof2 = false → gb.2 = .err →
+      (m.selectStateE a b ga gb).2.2.2 = true ∧ (m.selectStateE a b ga gb).1.st = 0 ∧
+      (m.selectStateE a b ga gb).1.eof2 = false ∧
+      ((m.selectStateE a b ga gb).1.eof1 = true → m.eof1 = true ∨ ga.2 = .eof)) := by
+  constructor
+  · intro he hg
+    obtain ⟨e1, e2, e3, e4, _⟩ := selectStateE_err1 m a b ga gb h0 he hg
+    exact ⟨e1, e2, e3, e4⟩
+  · intro h1 he hg
+    obtain ⟨e1, e2, e3, _, _, e6⟩ := selectStateE_err2 m a b ga gb h0 h1 he hg
+    exact ⟨e1, e2, e3, e6⟩
+
+/-- **the query fails instead of silently reading a subset**: while a source the mixers would ask keeps failing (`P`: states in
+which its `Get` answers a non-EOF error and stays there — a record that cannot be read), every `Get` of the tree answers the
+error, and afterwards that source would still be asked: the tree never goes on to deliver the merge of the other sources. -/
+theorem failing_source_blocks_read {τ : Type} [SourceE τ] (P : τ → Prop)
+    (hP : ∀ s, P s → (SourceE.getE s).2 = .err ∧ P (SourceE.getE s).1)
+    (t : It τ) (h : t.Blocked P) : t.getE.2 = .err ∧ t.getE.1.Blocked P ∧ t.getE.1.getE.2 = .err := by
+  obtain ⟨h1, h2⟩ := It.getE_blocked P hP t h
+  exact ⟨h1, h2, (It.getE_blocked P hP _ h2).1⟩
+
+-- non-vacuity: a fresh mixer over an in-memory source whose first record cannot be read, and a healthy one
+example : ∃ t : It LeafE, t.Blocked LeafE.Stuck ∧ (∀ s, LeafE.Stuck s → (SourceE.getE s).2 = .err ∧ LeafE.Stuck (SourceE.getE s).1) :=
+  ⟨It.init (.leaf { l := ⟨1, [⟨5, 0⟩], 0, false⟩, bad := [0] }) (.leaf { l := ⟨2, [⟨1, 0⟩], 0, false⟩ }),
+    by simp [It.init, It.Blocked, LeafE.Stuck, Leaf.clamp], LeafE.stuck_getE⟩
+
 /-- the in-memory leaf reports every event under its own tag line (with `multi_read`: every event of a merged read
 carries the tag line of the partition it is stored in) -/
 theorem leaf_attribution (l : Leaf) (e : Ev) (h : e ∈ view l) : e.tags = l.tags := by
@@ -308,7 +439,7 @@ is the same, hence so is every answer of every operation sequence, in particular
 different partitions. -/
 theorem merged_order_deterministic [Inhabited σ] (o1 o2 : List (Bytes × σ)) (hp : o1.Perm o2)
     (hn : (o1.map (·.1)).Nodup) : cursorTree o1 = cursorTree o2 := by
-  have hf : Generated.C04.newCursorSortsSources = true := facts.2.2.2.2.2
+  have hf : Generated.C04.newCursorSortsSources = true := facts.2.2.2.2.2.1
   unfold cursorTree buildFromMap sourceOrder
   rw [hf]
   simp only [if_true]
@@ -319,7 +450,7 @@ order of their tag lines (each exactly once) -/
 theorem source_priority_is_tag_line_order [Inhabited σ] (mapOrder : List (Bytes × σ)) (hne : mapOrder ≠ []) :
     ∃ (t : It σ) (sorted : List (Bytes × σ)), cursorTree mapOrder = some t ∧ t.leaves = sorted.map (·.2) ∧ sorted.Perm mapOrder ∧
       sorted.Pairwise (fun a b => Go.bytesLe a.1 b.1 = true) := by
-  have hf : Generated.C04.newCursorSortsSources = true := facts.2.2.2.2.2
+  have hf : Generated.C04.newCursorSortsSources = true := facts.2.2.2.2.2.1
   have hne' : (sortLines mapOrder).map (·.2) ≠ [] := by
     intro h
     have := (sortLines_perm mapOrder).length_eq
